@@ -483,6 +483,95 @@ func mutations() []mutation {
 	}
 }
 
+// demotedPart: the real chain keeps being checked with the right heights after it has lost the
+// lead: the 725000 fixture up to 725200, a heavier (unchecked, mock) competing branch from 725195
+// that overtakes it, Clean / Save (consolidation re-hangs the real chain as a side branch), then
+// the real headers 725201.. must all be accepted, with difficulty checking on, on the demoted chain;
+// and the same without any maintenance in between.
+func demotedPart(thorough bool) *result {
+	res := newResult()
+	data, err := os.ReadFile(repoRoot() + "/headers/test_fixtures/headers_725000.txt")
+	var hs []*wire.BlockHeader
+	if err == nil {
+		err = json.Unmarshal(data, &hs)
+	}
+	if err != nil || len(hs) < 230 {
+		res.vs = append(res.vs, mc.Violation{Prop: "C02", Clause: "fixture", Fingerprint: "fixture", Detail: fmt.Sprint(err, len(hs))})
+		return res
+	}
+	work, _ := new(big.Int).SetString("134b2eb2b14bbedbad9a14b", 16)
+	// (The repository is started with the hook VerifMockRooted instead of the MockLatest test
+	// helper: MockLatest's root branch is not genesis-rooted, consolidate finds no oldest branch on it
+	// and Clean / Save cannot run.)
+	for _, maint := range []string{"none", "clean", "save"} {
+		repo := headers.NewRepository(headers.DefaultConfig(), vstore.New())
+		repo.DisableDifficulty()
+		repo.VerifMockRooted(hs[0], 725000, work)
+		bad := ""
+		p := safe(func() {
+			for i := 1; i <= 200; i++ {
+				if i == 150 {
+					repo.EnableDifficulty()
+				}
+				if err := repo.ProcessHeader(ctx, hs[i]); err != nil {
+					bad = fmt.Sprintf("real header %d refused: %v", 725000+i, err)
+					return
+				}
+			}
+			// competing branch from 725195: eight headers with much lower targets, not checked
+			repo.DisableDifficulty()
+			prev := *hs[195].BlockHash()
+			for k := 0; k < 8; k++ {
+				h := &wire.BlockHeader{Version: 1, PrevBlock: prev, Timestamp: hs[195].Timestamp + uint32(k+1)*600, Bits: 0x17100000, Nonce: uint32(900 + k)}
+				if err := repo.ProcessHeader(ctx, h); err != nil {
+					bad = fmt.Sprintf("competing header %d refused: %v", k, err)
+					return
+				}
+				prev = *h.BlockHash()
+			}
+			repo.EnableDifficulty()
+			if repo.LastHash() != prev {
+				bad = "the competing branch did not take the lead (fixture assumption)"
+				return
+			}
+			switch maint {
+			case "clean":
+				if err := repo.Clean(ctx); err != nil {
+					bad = "Clean: " + err.Error()
+					return
+				}
+			case "save":
+				if err := repo.Save(ctx); err != nil {
+					bad = "Save: " + err.Error()
+					return
+				}
+			}
+			for i := 201; i < 230; i++ {
+				if err := repo.ProcessHeader(ctx, hs[i]); err != nil {
+					bad = fmt.Sprintf("real header %d refused on the demoted chain after %s: %v", 725000+i, maint, err)
+					return
+				}
+				if got := repo.HashHeight(*hs[i].BlockHash()); got != 725000+i {
+					bad = fmt.Sprintf("real header %d is recorded at height %d after %s", 725000+i, got, maint)
+					return
+				}
+			}
+		})
+		res.evaluations += 29
+		res.nontrivial += 29
+		res.outcomes["demoted-real-chain/"+maint+"/"+fmt.Sprint(bad == "" && p == "")]++
+		if p != "" {
+			bad = "panic: " + p
+		}
+		if bad != "" {
+			res.vs = append(res.vs, mc.Violation{Prop: "C02", Clause: "real-header-refused-on-demoted-chain", Fingerprint: "real-header-refused-on-demoted-chain|" + maint,
+				Detail: bad, History: map[string]any{"maintenance": maint}})
+		}
+	}
+	res.samples = append(res.samples, map[string]any{"part": "demoted-real-chain", "maintenance": []string{"none", "clean", "save"}})
+	return res
+}
+
 func chainPart(thorough bool) *result {
 	res := newResult()
 	fixtures := []fixture{
@@ -567,9 +656,14 @@ func main() {
 	_ = flag.String("prop", "C02", "")
 	_ = flag.String("replay", "", "")
 	mine := flag.Bool("mine-fork", false, "find the nonce of the fork fixture header (one-off)")
+	mineB := flag.Bool("mine-boundary", false, "find the nonce of the activation-boundary fixture header (one-off)")
 	flag.Parse()
 	if *mine {
 		mineFork()
+		return
+	}
+	if *mineB {
+		mineBoundary()
 		return
 	}
 	start := time.Now()
@@ -579,7 +673,7 @@ func main() {
 	for _, p := range []struct {
 		name string
 		f    func(bool) *result
-	}{{"target-function", targetPart}, {"target-on-pruned-branch", prunedPart}, {"bits-decoding", bitsPart}, {"real-chain", chainPart}, {"own-branch-target", forkPart}} {
+	}{{"target-function", targetPart}, {"target-on-pruned-branch", prunedPart}, {"bits-decoding", bitsPart}, {"real-chain", chainPart}, {"own-branch-target", forkPart}, {"activation-boundary", boundaryPart}, {"demoted-real-chain", demotedPart}} {
 		t0 := time.Now()
 		r := p.f(thorough)
 		parts[p.name] = r
